@@ -620,6 +620,11 @@ class Gen:
                     effectful_named = True
                 named.append((n, e))
                 self.features.add("named-arg")
+        if named and any(has_user_call(e) for _, e in named):
+            # grass evaluates named arguments in interning order (finding N1), Sass in source order:
+            # when one named argument has side effects, the others must not depend on any state
+            named = [(n, e if has_user_call(e) else (self.lit(ptypes.get(n, "num")) if has_var(e) else e))
+                     for n, e in named]
         if named:
             r.shuffle(named)
         rest_e = None
@@ -945,6 +950,14 @@ def respell(t, rng):
             return (t[0], n) + tuple(respell(x, rng) for x in t[2:])
         return tuple(respell(x, rng) for x in t)
     return t
+
+
+def has_var(e):
+    if not isinstance(e, tuple):
+        return False
+    if e and e[0] == "var":
+        return True
+    return any(has_var(x) for x in e if isinstance(x, tuple))
 
 
 def gen_program(rng, cfg):
